@@ -113,6 +113,7 @@ class Meta:
         return 'Meta(%r)' % (self.v,)
 
     def __reduce__(self):
+        _h('meta.__reduce__')
         return (Meta, (self.v,))
 
 
@@ -134,6 +135,18 @@ class NT3(NT1):
 class TNT(typing.NamedTuple):
     p: object
     q: object = None
+
+
+class LiarList(list):
+    """A children / leaves container whose __len__ lies (longer or shorter than what iteration yields)."""
+    delta = 3
+
+    def __len__(self):
+        return max(0, list.__len__(self) + self.delta)
+
+
+class LiarShort(LiarList):
+    delta = -1
 
 
 class Node:
@@ -233,6 +246,10 @@ class Funcs:
                 return list(ch) + [Leaf(-2)], self.meta(node.aux), ()
             if m == 'entries_short_gen':
                 return self._gen(list(ch) + [Leaf(-3)]), self.meta(node.aux), ['g%d' % i for i in range(n)]
+            if m == 'liar_long':
+                return LiarList(ch), self.meta(node.aux)
+            if m == 'liar_short':
+                return LiarShort(ch), self.meta(node.aux), None
             if m == 'entries_noniter':
                 return list(ch), self.meta(node.aux), 7
             if m == 'not_tuple':
